@@ -47,6 +47,7 @@ func (f *FuncCtx) stmt(st *State, s ast.Stmt) *Flow {
 					f.drain(fl)
 					if f.track {
 						p := st
+						p.ndefer = len(f.deferred)
 						p.site = f.site("panic")
 						fl.Panics = append(fl.Panics, p)
 					}
@@ -313,6 +314,7 @@ func (f *FuncCtx) ret(st *State, x *ast.ReturnStmt) *Flow {
 		vals[i].GoT = sig.Results().At(i).Type()
 	}
 	st.ret = vals
+	st.ndefer = len(f.deferred)
 	st.site = fmt.Sprintf("ret%d", f.retOrd[x])
 	// named results observe the returned values (deferred closures may read/modify them)
 	for i, rv := range f.results {
@@ -566,13 +568,16 @@ func (f *FuncCtx) assignedIn(nodes ...ast.Node) *loopTargets {
 			}
 		case *ast.SelectorExpr:
 			if sel := f.tinfo().Selections[x]; sel != nil && sel.Kind() == types.FieldVal {
-				// find owner + path without evaluating
-				lt.heaps["F:"+x.Sel.Name] = true
+				if hn := f.fieldHeapStatic(x); hn != "" {
+					lt.heaps[hn] = true
+				} else {
+					lt.heaps["F:"+x.Sel.Name] = true
+				}
 			}
 		case *ast.IndexExpr:
 			bt := types.Unalias(f.typeOf(x.X))
 			if m, ok := bt.Underlying().(*types.Map); ok {
-				d, v, l := f.w.mapHeaps(f.sortOfT(m.Key()), f.sortOfT(m.Elem()))
+				d, v, l := f.w.mapHeapsT(m, f.bv)
 				lt.heaps[d], lt.heaps[v], lt.heaps[l] = true, true, true
 			} else {
 				markLhs(x.X)
@@ -870,7 +875,7 @@ func (f *FuncCtx) rangeStmt(st *State, x *ast.RangeStmt, label string) *Flow {
 		isMap = true
 		mp = u
 		ks, vs := f.sortOfT(u.Key()), f.sortOfT(u.Elem())
-		dom, _, ln := f.w.mapHeaps(ks, vs)
+		dom, _, ln := f.w.mapHeapsT(u, f.bv)
 		nn := f.fresh("rng_n", SInt)
 		n = Term{S: nn, Sort: SInt}
 		keysArr = f.fresh("rng_keys", "(Array Int "+ks+")")
@@ -957,7 +962,7 @@ func (f *FuncCtx) bindRangeVars(body *State, x *ast.RangeStmt, coll Term, idx st
 	}
 	if isMap {
 		ks, vs := f.sortOfT(mp.Key()), f.sortOfT(mp.Elem())
-		_, val, _ := f.w.mapHeaps(ks, vs)
+		_, val, _ := f.w.mapHeapsT(mp, f.bv)
 		k := Term{S: "(select " + keysArr + " " + idx + ")", Sort: ks, GoT: mp.Key()}
 		k = f.defineAlways(body, "rk", k)
 		f.typeFacts(body, k)
@@ -1015,4 +1020,58 @@ func (f *FuncCtx) unrollRange(st *State, x *ast.RangeStmt, label string, n int, 
 	}
 	out.Normal = f.merge(exits)
 	return out
+}
+
+// fieldHeapStatic names the heap array a field selection denotes, from types alone ("" if it cannot tell).
+func (f *FuncCtx) fieldHeapStatic(x *ast.SelectorExpr) (name string) {
+	defer func() {
+		if r := recover(); r != nil {
+			if _, ok := r.(unsupported); !ok {
+				panic(r)
+			}
+			name = ""
+		}
+	}()
+	sel := f.tinfo().Selections[x]
+	if sel == nil || sel.Kind() != types.FieldVal {
+		return ""
+	}
+	// walk down to the pointer-typed base
+	var chain []*ast.SelectorExpr
+	cur := x
+	for {
+		chain = append([]*ast.SelectorExpr{cur}, chain...)
+		xt := types.Unalias(f.typeOf(cur.X))
+		if _, ok := xt.Underlying().(*types.Pointer); ok {
+			break
+		}
+		inner, ok := ast.Unparen(cur.X).(*ast.SelectorExpr)
+		if !ok {
+			return ""
+		}
+		if s2 := f.tinfo().Selections[inner]; s2 == nil || s2.Kind() != types.FieldVal {
+			return ""
+		}
+		cur = inner
+	}
+	owner, st0 := derefStruct(types.Unalias(f.typeOf(chain[0].X)))
+	if owner == nil {
+		return ""
+	}
+	var names []string
+	var ft types.Type
+	curS := st0
+	for _, c := range chain {
+		s := f.tinfo().Selections[c]
+		for _, idx := range s.Index() {
+			fv := curS.Field(idx)
+			names = append(names, fv.Name())
+			ft = fv.Type()
+			if ns, ok := types.Unalias(fv.Type()).Underlying().(*types.Struct); ok {
+				curS = ns
+			}
+		}
+	}
+	hn, _ := f.w.fieldHeap(owner, strings.Join(names, "."), ft, f.bv)
+	return hn
 }
